@@ -20,7 +20,16 @@ for p in props:
     na.append({'property_id': pid, 'reason': 'check not built yet (see DESIGN.md section 9); '
                'the technique applies and the property is planned'})
     continue
-  mod = importlib.import_module('vf.props.' + pid.lower())
+  # each module registers probe configurables at import: load it in its own interpreter
+  import subprocess, types
+  out = subprocess.check_output(
+      [sys.executable, '-c',
+       'import json, importlib; m = importlib.import_module("vf.props.%s"); '
+       'print("@@" + json.dumps({k: getattr(m, k) for k in '
+       '("LEVEL", "LEVEL_TEXT", "LEVEL_NOTE", "TECHNIQUE")}))' % pid.lower()],
+      env=dict(os.environ, PYTHONPATH=HERE + os.pathsep + os.path.join(HERE, '.deps')),
+      stderr=subprocess.DEVNULL).decode()
+  mod = types.SimpleNamespace(**json.loads(out[out.index('@@') + 2:]))
   checks.append({
       'property_id': pid,
       'quick_cmd': f'./check {pid} quick',
